@@ -51,11 +51,12 @@ claim("C05",
       "cases; never ABORT; a final verdict leaves nothing in progress), exit code = regenerated StudyStatus value (0 iff FINISHED), a "
       "potential function (3/2/1 weights + remaining restart budget) never increases except on hardware-failure reports and strictly "
       "decreases on productive polls, no deadlock when nothing is in progress, and termination for every fair, eventually quiet stream "
-      "(C05_terminates) with the quantitative bound. C05_ran_all_enabled is not proved (monitor code 55 checks it at run time). Tie: T-code, "
+      "(C05_terminates) with the quantitative bound; the whole trace monitor incl. family 5 (verdict codes 51-54 and 55 = every enabled step was run at a "
+      "normal termination) is proved silent on every model trace (Props/ExecMonitor.v: monitor_silent). Tie: T-code, "
       "histories against the real ExecutionGraph / Conductor.monitor_study incl. fair tails that must stop within the bound, and process "
       "exit codes of real `maestro run -fg` / `conductor` runs.",
       "Coq proof (inductive invariant + variant/potential argument over infinite streams) + in-Coq differential correspondence + end-to-end exit codes",
-      "DESIGN.md 5/C05, 10", "PARTIAL for the clause 'has run every enabled step' (run-time monitor only).")
+      "DESIGN.md 5/C05, 10")
 claim("C10",
       "Coq theorems for all strings (Unicode code points) over the regenerated sanitiser alphabet and the path model: sanitised components "
       "contain no '/', workspaces root/c1[/c2] are strictly inside the root after (proved idempotent) normalisation, distinct instances have "
@@ -136,12 +137,13 @@ claim("C20",
       "Coq theorems on the regenerated polling model: a query ERROR aborts with records, sets, queue and dependencies untouched and no "
       "submission (and abort happens only then), NOJOBS = the poll with an empty report list, any subset of quiet entries (missing, None, "
       "non-terminal non-RUNNING) can be erased without changing the poll, a tracked step whose entries are quiet keeps its record and "
-      "stays in progress, a RUNNING report changes only the state; run-level corollaries; monitor codes 201-203 proved silent on every "
-      "model trace (205, 207, 40 are checked at run time on both traces). Tie: T-code (ERROR test before any mutation, OK-only dispatch), "
+      "stays in progress, a RUNNING report changes only the state; run-level corollaries; every monitor code of the family (201-203, 205, 207, 40) "
+      "is proved silent on every model trace (Props/ExecMonitor.v). Tie: T-code (ERROR test before any mutation, OK-only dispatch), "
       "exhaustive fault injection (every query code and a cancel at every poll, absent/None reports) + random faulty histories.",
       "Coq proof (frame/erasure lemmas of the dispatch fold) + in-Coq differential correspondence with fault injection",
-      "DESIGN.md 5/C20, 10", "Monitor codes 205/207/40 of the family are run-time checked only.")
-_EXEC = ("Tie: Exec/ExecGen.v and ExecGen2.v regenerated from executiongraph.py / conductor.py on every run (T-code; equality lemmas for the "
+      "DESIGN.md 5/C20, 10")
+_EXEC = ("All 43 codes of the trace monitor are proved silent on the model's own trace (Props/ExecMonitor.v: monitor_silent), so the "
+         "run-time monitor is exactly the proved predicate. Tie: Exec/ExecGen.v and ExecGen2.v regenerated from executiongraph.py / conductor.py on every run (T-code; equality lemmas for the "
          "hand-written summaries), histories generated adaptively against the real ExecutionGraph (40% through the real "
          "Conductor.monitor_study loop, cancel via the lock file, cancel/submit/query faults), exhaustive tiny scopes, model observations = "
          "implementation observations and the SAME trace monitor evaluated on the implementation's trace inside Coq; the theorems' "
